@@ -10,7 +10,8 @@ first (`loadNode`, trie.go:518-545), a superset of the loads of the real code.
   mode all|latest|gc       -> ok
   cfg <gcp> <p2p> <ssi> <mtb>  -> ok           (the node's GC configuration, MaxTraceableBlocks)
   mtb <v>                  -> mtb=<n>          (a committee transaction asked for MaxTraceableBlocks v)
-  mtbhf <v>                -> mtb=<n>          (GetMaxTraceableBlocks switched to v at a hardfork: accepted only as a lowering)
+  hfcfg <at> <gen>         -> ok               (Echidna from height <at> on only, Genesis.MaxTraceableBlocks <gen>)
+  mtbnow                   -> mtb=<n>          (the translated GetMaxTraceableBlocks at the current height; taken as a lowering)
   blk <idx> <sub>...       -> r=<root> n=<records> dg=<digest> ch=<changes> | panic
   blkq <idx> <sub>...      -> r=<root>
   drop <idx> <sub>...      -> r=<root>
@@ -41,6 +42,9 @@ structure DSt where
   printed : Store := []
   lazy : Bool := false
   node : Bool := false     -- a core.Blockchain (after `cfg`): storeBlock's Collapse(10) applies
+  hfAt : Option Nat := none   -- `hfcfg`: Echidna is enabled from this height on only
+  genMtb : Nat := 0           -- Genesis.MaxTraceableBlocks (the Policy's initial value)
+  cfgMtb : Nat := 0           -- MaxTraceableBlocks of the configuration
 def le32 (n : Nat) : Bytes :=
   [UInt8.ofNat (n % 256), UInt8.ofNat (n / 256 % 256), UInt8.ofNat (n / 65536 % 256), UInt8.ofNat (n / 16777216 % 256)]
 
@@ -143,13 +147,19 @@ def step (d : DSt) (ws : List String) : DSt × String :=
         | _ => d.c.mtb
       ({ d with c := { d.c with mtb := m' } }, s!"mtb={m'}")
     | none => (d, "bad-op")
-  | ["mtbhf", v] =>
-    -- GetMaxTraceableBlocks changed at a hardfork (config value -> Policy value): a lowering for the model
-    match v.toNat? with
-    | some n =>
-      let m' := newMtbOf d.c.mtb (some n)
-      ({ d with c := { d.c with mtb := m' } }, s!"mtb={m'}")
-    | none => (d, "bad-op")
+  | ["hfcfg", hat, gen] =>
+    match hat.toNat?, gen.toNat? with
+    | some a, some g => ({ d with hfAt := some a, genMtb := g, cfgMtb := d.c.mtb }, "ok")
+    | _, _ => (d, "bad-op")
+  | ["mtbnow"] =>
+    -- the node's MaxTraceableBlocks at the current height: the TRANSLATED Blockchain.GetMaxTraceableBlocks
+    -- (config value before Echidna, the Policy's = Genesis value from then on; no Policy transactions in
+    -- these cases); the model takes the new value only as a lowering (Props/C11 mtb_only_lowers_along_chain)
+    let h := d.c.next - 1
+    let v := (NeoModel.Generated.GoFuncs.bcGetMaxTraceableBlocks (h : Int)
+      (match d.hfAt with | some a => decide (a ≤ h) | none => false) (d.genMtb : Int) (d.genMtb : Int) (d.cfgMtb : Int)).toNat
+    let m' := newMtbOf d.c.mtb (some v)
+    ({ d with c := { d.c with mtb := m' } }, s!"mtb={m'}")
   | "blk" :: idx :: subs =>
     match idx.toNat?, parseSubs subs with
     | some i, some ops =>
